@@ -246,6 +246,23 @@ fn mutations(word: &[&str], mut f: impl FnMut(&[&str]) -> bool) {
     }
 }
 
+/// Every insertion of one of `tokens` at every position.
+fn insertions(word: &[&str], tokens: &[&'static str], mut f: impl FnMut(&[&str]) -> bool) {
+    let n = word.len();
+    let mut buf: Vec<&str> = Vec::with_capacity(n + 1);
+    for i in 0..=n {
+        for t in tokens {
+            buf.clear();
+            buf.extend_from_slice(&word[..i]);
+            buf.push(t);
+            buf.extend_from_slice(&word[i..]);
+            if !f(&buf) {
+                return;
+            }
+        }
+    }
+}
+
 impl Engine for C04 {
     fn id(&self) -> &'static str {
         "C04"
@@ -254,7 +271,7 @@ impl Engine for C04 {
     fn rule(&self, tier: Tier) -> String {
         format!(
             "(a) every sentence of G_gen (spec/grammar_gen.bnf) in three strata, each exhaustive below its bound: statement skeletons with `1`/`int`/identifier plugs up to {} tokens, every value derivation inside `defvar x = V ;` up to {} tokens, every class declaration (all type derivations, template arguments, parent lists, body items) up to {} tokens, every statement skeleton whose value positions (incl. def names, argument lists, foreach lists) hold an operator call, rendered once for each of the 52 operator spellings, and the same with !cond - each must parse without error and the tree seen through the typed accessors must equal the derivation; \
-             (b) every token-kind word of length <= {} over {} non-trivia kinds, classified by Earley recognisers of G_gen and G_rec (spec/grammar_rec.bnf); (c) for every generated sentence of at most {} tokens every single deletion, duplication, adjacent transposition, and insertion or replacement by each of {} tokens{}; (d) every seed and corpus file parses without error. \
+             (b) every token-kind word of length <= {} over {} non-trivia kinds, classified by Earley recognisers of G_gen and G_rec (spec/grammar_rec.bnf); (c) for every generated sentence of at most {} tokens every single deletion, duplication, adjacent transposition, and insertion or replacement by each of {} tokens, and for every generated sentence of at most {} tokens every insertion of each of the {} non-trivia token kinds at every position{}; (d) every seed and corpus file parses without error. \
              Words in G_gen must have no error; words outside G_rec must have at least one; G_rec minus G_gen is a stated don't-care zone. non-trivial = sentences, and words classified outside G_rec; distinct by construction within a stratum.",
             strata(tier)[0].max_len,
             strata(tier)[1].max_len,
@@ -263,6 +280,8 @@ impl Engine for C04 {
             WORD_TOKENS.len(),
             tier.pick(6, 7),
             MUT_TOKENS.len(),
+            tier.pick(8, 9),
+            WORD_TOKENS.len(),
             tier.pick("", "; double mutations of sentences of at most 4 tokens")
         )
     }
@@ -323,6 +342,23 @@ impl Engine for C04 {
                         mutations(&word, |m| {
                             ctx.case(false);
                             ctx.add("mutations", 1);
+                            for f in failures(&gs, m, Membership::Unknown, None) {
+                                ctx.fail(f);
+                            }
+                            true
+                        });
+                    }
+                    // one stray token of ANY kind (every keyword, literal kind and punctuation) at every
+                    // position, also for somewhat longer sentences
+                    if word.len() <= tier.pick(8, 9) {
+                        let short = word.len() <= tier.pick(6, 7);
+                        insertions(&word, WORD_TOKENS, |m| {
+                            // the insertions by MUT_TOKENS of short sentences were done above
+                            if short && MUT_TOKENS.contains(&m[m.iter().zip(word.iter()).take_while(|(a, b)| a == b).count().min(m.len() - 1)]) {
+                                return true;
+                            }
+                            ctx.case(false);
+                            ctx.add("wide_insertions", 1);
                             for f in failures(&gs, m, Membership::Unknown, None) {
                                 ctx.fail(f);
                             }
